@@ -321,6 +321,14 @@ fn lines_of(k: usize) -> BTreeSet<i32> {
 }
 const NAMES: &[&str] = &["A.sol", "a b.sol", "x:9.sol", "é.sol", "- y.sol", "## High Risk.sol", "A.sol", "B.sol:4", "Total Optimizations 9.sol", "Vault<T>.sol", "a&b.sol", "*bold*.sol", "[x](y).sol", "back`tick.sol", "tab\tname.sol", "Deploy.s.sol", "Invariant.t.sol", "Handler.T.SOL", "x.sol.bak"];
 
+/// names that look like placeholders of a template / format string, and names with digit runs (small, large, beyond
+/// u32 / u64, non-ASCII numerals) that a "natural order" comparison would parse
+pub const NAMES2: &[&str] = &[
+    "Pipe{line}.sol", "{file}.sol", "{}.sol", "{0}.sol", "%s.sol", "%d.sol", "$1.sol", "\\1.sol", "${line}.sol", "{{line}}.sol",
+    "Token2.sol", "Token10.sol", "Vault_flat_1695731234567.sol", "Vault_flat_1695731299999.sol", "V18446744073709551616.sol", "V18446744073709551617.sol",
+    "9_Vault.sol", "10_Router.sol", "1InchAdapter.sol", "m\u{b2}.sol", "\u{663}.sol", "007.sol", "7.sol",
+];
+
 fn files_variant(k: usize, nfiles: usize) -> Files {
     (0..nfiles).map(|j| (NAMES[(k + j * 3) % NAMES.len()].to_string(), lines_of(k + j))).collect()
 }
@@ -447,6 +455,21 @@ pub fn map_space(tb: &Tables, tier: Tier) -> Vec<Maps> {
             out.push(Maps { v: vec![], o: vec![], q: vec![(i, runs.clone())] });
         }
         out.push(Maps { v: (0..nv).map(|i| (i, runs.clone())).collect(), o: (0..no).map(|i| (i, runs.clone())).collect(), q: (0..nq).map(|i| (i, runs.clone())).collect() });
+    }
+    // special names alone and in ordered pairs, one pattern of each category (rotating)
+    {
+        let mut r = 0usize;
+        for (ia, a) in NAMES2.iter().enumerate() {
+            for (ib, b) in NAMES2.iter().enumerate() {
+                let files: Files = if ia == ib { vec![(a.to_string(), [3, 14].into_iter().collect())] } else { vec![(a.to_string(), [3, 14].into_iter().collect()), (b.to_string(), [14].into_iter().collect())] };
+                r += 1;
+                match r % 3 {
+                    0 => out.push(Maps { v: vec![(r % nv, files)], o: vec![], q: vec![] }),
+                    1 => out.push(Maps { v: vec![], o: vec![(r % no, files)], q: vec![] }),
+                    _ => out.push(Maps { v: vec![], o: vec![], q: vec![(r % nq, files)] }),
+                }
+            }
+        }
     }
     // all 8 presence combinations of the three categories (through generate_report)
     for mask in 0u32..8 {
@@ -725,6 +748,27 @@ pub fn c13(tier: Tier) -> i32 {
             }
             let files: Vec<Files> = (0..k).map(|i| f(i + start, if i == 0 { 2 + (start % 2) } else { 1 })).collect();
             c13_one(&keys, &files, &|m| generate_optimization_report(m), "optimization_report", &mut vs, &mut stats);
+        }
+    }
+    // one pattern, three files whose names a "smarter" ordering could compare inconsistently (numbered prefixes, digit
+    // runs, letter case, non-ASCII): every 3-subset of the alphabet in all 6 discovery orders, each generator
+    {
+        let alphabet = ["9_Vault.sol", "10_Router.sol", "1InchAdapter.sol", "2_Owner.sol", "Token2.sol", "Token10.sol", "token.sol", "Token.sol", "_a.sol", "a.sol", "A.sol", "\u{e9}.sol", "Z.sol", "15.sol"];
+        let one: BTreeSet<i32> = [5].into_iter().collect();
+        for a in 0..alphabet.len() {
+            for b in (a + 1)..alphabet.len() {
+                for c in (b + 1)..alphabet.len() {
+                    if tier == Tier::Quick && (a + b + c) % 2 == 1 && !(a < 4 && b < 4) {
+                        continue;
+                    }
+                    let files: Vec<Files> = vec![vec![(alphabet[a].to_string(), one.clone()), (alphabet[b].to_string(), one.clone()), (alphabet[c].to_string(), one.clone())]];
+                    match (a + b + c) % 3 {
+                        0 => c13_one(&[tb.vulns[(a + b) % nv]], &files, &|m| generate_vulnerability_report(m), "vulnerability_report", &mut vs, &mut stats),
+                        1 => c13_one(&[tb.opts[(a + b) % no]], &files, &|m| generate_optimization_report(m), "optimization_report", &mut vs, &mut stats),
+                        _ => c13_one(&[tb.qas[(a + b) % nq]], &files, &|m| generate_qa_report(m), "qa_report", &mut vs, &mut stats),
+                    }
+                }
+            }
         }
     }
     // very many files for one pattern: forward, reversed and rotated discovery orders through generate_report
